@@ -819,6 +819,8 @@ def gen_c03(seed, tier):
             kw["extra_certs"] = [9 + i]           # key roll-over in progress: two signing certs published
         kw["want_authn_requests_signed"] = g.rl.chance(0.3)
         kw["only_md_keys"] = g.rl.pick([None, None, False])
+        if g.rl.chance(0.2):
+            kw["late_md"] = True
         if g.rl.chance(0.4):
             # the IdP also publishes an encryption certificate; some federations drop the `use` attributes
             kw["enc_keys"] = [6 + i]
@@ -837,6 +839,8 @@ def gen_c03(seed, tier):
         sps.append(g.add_sp(i, wrs=wrs, was=(not wrs) or g.rl.chance(0.3),
                             only_md_keys=g.rl.pick([None, True, True, False, False]),
                             sign_requests=g.rl.chance(0.5)))
+        if g.rl.chance(0.25):
+            sps[-1]["late_md"] = True       # starts with an empty metadata store, the federation is loaded afterwards
         if sps[-1].get("only_md_keys") and g.rl.chance(0.7):
             sps[-1]["md_keys_text"] = g.rl.pick(["True", "True", "true", "yes", "1", "on"])
     g.draw_skews(choices=(0, 0, 1))
